@@ -207,6 +207,9 @@ def run_tlc(cases, root, v):
     return tot
 
 
+MAX_RSS_KB = 1500000
+
+
 def run(tier, seed):
     t0 = time.time()
     v = C.Verdict(PID)
@@ -232,6 +235,10 @@ def run(tier, seed):
             # unbounded recursion / memory growth stopped by the interpreter's limit: the analysis did not terminate by itself
             v.violation("diverges:%s" % tag, {"case": name, "why": "the run ended with %s: %s" % (r["exit"], (r.get("traceback") or "").strip().splitlines()[-1][:200] if r.get("traceback") else ""),
                                              "traceback_tail": (r.get("traceback") or "")[-1500:], "files": src})
+        elif (r.get("maxrss_kb") or 0) > MAX_RSS_KB:
+            # memory is work too: a program of a few lines whose analysis needs gigabytes has blown up
+            v.violation("memory_blowup:%s" % tag, {"case": name, "why": "peak resident set %.1f GB (an ordinary run stays below 0.4 GB)" % (r["maxrss_kb"] / 1e6),
+                                                   "wall_s": r.get("wall_s"), "files": src})
         elif r["exit"] not in ("ok", "TraceLimit"):
             crashes += 1
             v.note("%s ended with %s (a crash is not a divergence; its trace up to that point is still judged)" % (name, r["exit"]))
